@@ -124,10 +124,27 @@ class Verifier:
             return h
         return None
 
-    def method_of(self, ex, attr):
-        if ex.cls and "%s.%s" % (ex.cls, attr) in ex.module.functions:
-            return RepoFunction(ex.module.modname, attr, cls=ex.cls)
+    def method_of(self, ex, attr, obj=None):
+        """Resolve obj.attr to a method of obj's class (or of a base class in the same module)."""
+        cls_target = obj.get("__class__") if obj is not None else None
+        if cls_target:
+            modname, cls = cls_target.split(":")
+        else:
+            modname, cls = ex.module.modname, ex.cls
+        mod = self.module(modname)
+        for c in self.mro(mod, cls):
+            if "%s.%s" % (c, attr) in mod.functions:
+                return RepoFunction(modname, attr, cls=c, receiver=obj)
         return None
+
+    def mro(self, mod, cls):
+        out = [cls]
+        for node in mod.tree.body:
+            if isinstance(node, ast.ClassDef) and node.name == cls:
+                for b in node.bases:
+                    if isinstance(b, ast.Name):
+                        out += self.mro(mod, b.id)
+        return out
 
     def havoc_db(self, ex, st, db):
         return self.objects.havoc_db(ex, st, db)
@@ -171,13 +188,13 @@ class Verifier:
         if qual not in mod.functions:
             raise EngineError("function %s not found in %s" % (qual, mod.path))
         ex = Exec(self, mod, qual, c)
-        for lname in c.uses:
-            pass
+        self.nonlinear = c.options.get("nonlinear", "uf")
         obls = ex.run()
         return ex, obls
 
     def vc_lemma(self, name):
         c = self.registry.lemmas[name]
+        self.nonlinear = c.options.get("nonlinear", "uf")
         ex = LemmaExec(self, c)
         return ex, ex.run()
 
